@@ -29,13 +29,14 @@ CONSTANTS
 """
 INVS = ["INVARIANT ProfileIsAnonymous", "INVARIANT ProfileGoesToConfiguredUrl", "INVARIANT CredentialsOnlyWhereAllowed",
         "INVARIANT CookieIsolation", "INVARIANT CookieReplay", "PROPERTY NoPostOnDryRun", "PROPERTY OnePostPerRequest"]
-HOSTURL = {"cfg": "https://cfg.invalid/ofx", "svc": "https://svc.invalid/service"}
-URLHOST = {"cfg.invalid": "cfg", "svc.invalid": "svc"}
+# the advertised service URL has upper-case characters in its path: a request goes to the URL as advertised
+HOSTURL = {"cfg": "https://cfg.invalid/ofx", "svc": "https://svc.invalid/OFXServer/Stmt.dll"}
+URLHOST = {"https://cfg.invalid/ofx": "cfg", "https://svc.invalid/OFXServer/Stmt.dll": "svc"}
 
 
 def run(ctx):
     import ofxtools.config as config
-    from ofxtools.Client import OFXClient, StmtRq
+    from ofxtools.Client import OFXClient, StmtRq, CcStmtRq, InvStmtRq, StmtEndRq, CcStmtEndRq
     quick = ctx.tier == "quick"
     schema, types = export_schema.write(ctx)
     mins, _ = dc.mindocs(ctx)
@@ -67,11 +68,16 @@ def run(ctx):
             net.nextsid = 1
             net.issued = []
             dtprof = [0]
+            # the profile may leave statement message sets out (at least one stays) and may not offer closing statements
+            stm = [m for m in ("BANKMSGSET", "CREDITCARDMSGSET", "INVSTMTMSGSET") if rnd.random() < 0.6] or [rnd.choice(["BANKMSGSET", "INVSTMTMSGSET"])]
+            msgsets = tuple(m for m in ofx_server.ALL_MSGSETS if m in stm or m not in ("BANKMSGSET", "CREDITCARDMSGSET", "INVSTMTMSGSET"))
+            closing = rnd.choice(["Y", "N"])
 
             def responder(host, path, body, adv=adv):
                 if b"<PROFRQ>" in body:
                     dtprof[0] += 1
-                    return 200, ofx_server.profile(mins, HOSTURL[adv], dtprofup="202001%02d000000.000[+0:UTC]" % min(dtprof[0], 28)).encode()
+                    return 200, ofx_server.profile(mins, HOSTURL[adv], dtprofup="202001%02d000000.000[+0:UTC]" % min(dtprof[0], 28),
+                                                   msgsets=msgsets, closingavail=closing).encode()
                 return 200, ofx_server.empty_response(mins).encode()
             net.responder = responder
             userid, password, ua = "user-" + str(bi), "p&w<%d>" % bi, rnd.choice(["InetClntApp/3.0", "MyAgent/1 x"])
@@ -92,7 +98,11 @@ def run(ctx):
                     if call["kind"] == "profile":
                         cl.request_profile(dryrun=dry)
                     elif call["kind"] == "stmt":
-                        cl.request_statements(password, StmtRq(acctid="1", accttype="CHECKING"), dryrun=dry, skip_profile=skip)
+                        # any mix of statement request classes, whether or not the profile lists their message set
+                        pool = [StmtRq(acctid="1", accttype="CHECKING"), CcStmtRq(acctid="2"), InvStmtRq(acctid="3"),
+                                StmtEndRq(acctid="4", accttype="SAVINGS"), CcStmtEndRq(acctid="5")]
+                        rqs = rnd.sample(pool, rnd.choice([1, 1, 1, 2, 3]))
+                        cl.request_statements(password, *rqs, dryrun=dry, skip_profile=skip)
                     elif call["kind"] == "acctinfo":
                         cl.request_accounts(password, datetime.datetime(2020, 1, 1, tzinfo=datetime.timezone.utc), dryrun=dry, skip_profile=skip)
                     else:
@@ -102,7 +112,7 @@ def run(ctx):
                 posts = []
                 for rec in net.log[n0:]:
                     h = rec["headers"]
-                    posts.append({"host": URLHOST.get(rec["host"], rec["host"] or "?"), "method": rec["method"],
+                    posts.append({"host": URLHOST.get(rec["url"], rec["url"] or "?"), "method": rec["method"],
                                   "cookie": fakenet.sid_of(h), "ctype": cps(h.get("content-type", "")), "accept": cps(h.get("accept", "")),
                                   "ua": cps(h.get("user-agent", "")), "file": list(rec["body"])})
                 evs.append({"id": "h%dc%d" % (bi, ci), "op": "call", "client": call["client"], "kind": call["kind"], "mode": call["mode"],
